@@ -214,4 +214,35 @@ theorem eager_xml_error : ∀ (items : List (Item XmlCb)),
         simp only [xmlLayer] at this
         exact this
 
+/-- where a first failure comes from: a raise item of the batches, or `_handle_other`'s own `ExpatError` -/
+theorem firstFailure_some : ∀ (items : List (Item XmlCb)) (e : PyExc), firstFailure items = some e →
+    Item.raise e ∈ items ∨ ∃ l c, e = .expat l c
+  | [], e, h => by simp [firstFailure] at h
+  | .raise e' :: rest, e, h => by
+      simp only [firstFailure, Option.some.injEq] at h
+      subst h
+      exact .inl (List.mem_cons_self ..)
+  | .cb c :: rest, e, h => by
+      have lift : (Item.raise e ∈ rest ∨ ∃ l c, e = .expat l c) →
+          (Item.raise e ∈ Item.cb c :: rest ∨ ∃ l c, e = .expat l c) := fun h =>
+        h.elim (fun m => .inl (List.mem_cons_of_mem _ m)) .inr
+      cases c with
+      | default_ s l col =>
+        simp only [firstFailure] at h
+        cases ho : handleOther s l col with
+        | error e' =>
+          simp only [ho, Option.some.injEq] at h
+          subst h
+          right
+          unfold handleOther at ho
+          split at ho
+          · split at ho
+            · cases ho
+            · simp only [Except.error.injEq] at ho; exact ⟨l, col, ho.symm⟩
+          · cases ho
+        | ok evs =>
+          simp only [ho] at h
+          exact lift (firstFailure_some rest e h)
+      | _ => simp only [firstFailure] at h; exact lift (firstFailure_some rest e h)
+
 end Genshi.Parse
